@@ -41,11 +41,16 @@ func NewKey(zone string, flags uint16, alg uint8) *KeyPair {
 	case dns.ECDSAP384SHA384:
 		bits = 384
 	}
-	priv, err := k.Generate(bits)
-	if err != nil {
-		panic(err)
+	for {
+		priv, err := k.Generate(bits)
+		if err != nil {
+			panic(err)
+		}
+		// miekg refuses to sign with a key whose tag is 0 (1 key in 65536).
+		if k.KeyTag() != 0 {
+			return &KeyPair{Key: k, Priv: priv}
+		}
 	}
-	return &KeyPair{Key: k, Priv: priv}
 }
 
 // Delegation is what a parent zone publishes for one child.
